@@ -95,7 +95,7 @@ CHECKS = {
         "level": "model_checking",
         "engine": "E2",
         "technique": "exhaustive enumeration of add/remove histories on the real schedule manager and of schedule-binding topologies through the real tick-to-task path; stateless model checking (pre-emption-bounded) of simultaneous firings against one consumer",
-        "level_text": "Part a: every sequence of Add/Remove of (crontab,id) pairs (2 crontabs x 2 ids, repeats and unknown pairs) up to depth 5 (quick) / 7 (thorough) on the real scheduleManager with the real cron library; after every step the registered set, the number of cron jobs and the messages produced by one injected firing of every job are compared with a reference-count model. Part b: every assignment of up to 2+2 schedule bindings to 2 hooks (shared/distinct crontabs incl. a column-aligned spelling of one, queues, groups, allowFailure, includeSnapshotsFrom, named/unnamed) with enable/disable sequences; one tick of each crontab through the real schedule handler must yield exactly one task per enabled binding with that crontab carrying its attributes. Part c (controlled scheduler, pre-emption bound 2 / 3): 2..4 distinct crontabs fire at the same instant, one thread per job as the cron library does, a fast or slow consumer of the schedule channel - every firing arrives exactly once.",
+        "level_text": "Part a: every sequence of Add/Remove of (crontab,id) pairs (2 crontabs x 2 ids, repeats and unknown pairs) up to depth 5 (quick) / 7 (thorough) on the real scheduleManager with the real cron library; after every step the registered set, the number of cron jobs and the messages produced by one injected firing of every job are compared with a reference-count model. Part b: every assignment of up to 2+2 schedule bindings to 2 hooks (shared/distinct crontabs incl. a column-aligned spelling of one, queues, groups, allowFailure, includeSnapshotsFrom, named/unnamed) with enable/disable sequences; one tick of each crontab through the real schedule handler must yield exactly one task per enabled binding with that crontab carrying its attributes. Part c (controlled scheduler, pre-emption bound 2 / 6): 2..4 distinct crontabs fire at the same instant, one thread per job as the cron library does, a fast or slow consumer of the schedule channel - every firing arrives exactly once.",
         "level_note": "Trusted: cron parsing/Entries of robfig/cron (never started; a firing is Job.Run()), reference models in the harnesses. Hook configurations are loaded through the real HookManager.Init with the hook process replaced by an in-process stand-in that answers --config.",
         "rule": "all op sequences / all binding topologies in the stated bounds; non-trivial = contains a Remove / more than one binding; distinct = distinct live set / task list",
         "parts": [
